@@ -115,4 +115,84 @@ def concClause [DecidableEq S] (o : ConcObs S) : String :=
 def judgeConc [DecidableEq S] (o : ConcObs S) : Option String :=
   if ConcOk o then none else some (concClause o)
 
+/-! ## activation: "for a connection that is activated" — the client knows NOTHING until its first message
+
+The stream of a connection starts with its `activate` request; what it received while that request was handled (the
+snapshot) is part of the stream.  A client that has not yet received a message for a parameter has no state for it. -/
+
+/-- replay for a client that may not know anything yet -/
+def replayO (k : Option S) (msgs : List S) : Option S := msgs.foldl (fun _ m => some m) k
+
+/-- the history of one parameter as seen by a connection from its activation on: the first observation is the
+activation itself (messages = the snapshot, cache unchanged).  After EVERY operation, activation included, the
+client has a state for the parameter and it is the cached one. -/
+def ReconstructsO : Option S → List (Obs S) → Prop
+  | _, [] => True
+  | k, o :: rest => replayO k o.msgs = some o.cache ∧ ReconstructsO (replayO k o.msgs) rest
+
+/-- `OpOk` for a client that may know nothing -/
+def OpOkO [DecidableEq S] (isErr : S → Bool) (k : Option S) (prev : S) (o : Obs S) : Prop :=
+  (∀ m ∈ o.msgs, m = o.cache) ∧ (isErr prev = true → isErr o.cache = false → o.msgs ≠ []) ∧
+  (o.cache ≠ prev → o.msgs ≠ []) ∧ replayO k o.msgs = some o.cache
+
+instance instDecOpOkO [DecidableEq S] (isErr : S → Bool) (k' : Option S) (prev : S) (o : Obs S) :
+    Decidable (OpOkO isErr k' prev o) := by
+  unfold OpOkO; infer_instance
+
+def TraceOkO [DecidableEq S] (isErr : S → Bool) : Option S → S → List (Obs S) → Prop
+  | _, _, [] => True
+  | k, prev, o :: rest => OpOkO isErr k prev o ∧ TraceOkO isErr (replayO k o.msgs) o.cache rest
+
+def clauseO [DecidableEq S] (isErr : S → Bool) (k : Option S) (prev : S) (o : Obs S) : String :=
+  if ¬ (∀ m ∈ o.msgs, m = o.cache) then "phantom"
+  else if ¬ (isErr prev = true → isErr o.cache = false → o.msgs ≠ []) then "recovery-not-announced"
+  else if ¬ (o.cache ≠ prev → o.msgs ≠ []) then "change-not-announced"
+  else if k = none ∧ o.msgs = [] then "no-state-after-activation"
+  else "replay-differs-from-cache"
+
+def judgeFromO [DecidableEq S] (isErr : S → Bool) : Nat → Option S → S → List (Obs S) → Option (Nat × String)
+  | _, _, _, [] => none
+  | i, k, prev, o :: rest =>
+    if OpOkO isErr k prev o then judgeFromO isErr (i + 1) (replayO k o.msgs) o.cache rest
+    else some (i, clauseO isErr k prev o)
+
+/-- monitor for the stream of a connection from its activation on: `prev` = the cache when the activation starts -/
+def judgeO [DecidableEq S] (isErr : S → Bool) (prev : S) (tr : List (Obs S)) : Option (Nat × String) :=
+  judgeFromO isErr 0 none prev tr
+
+/-- what one connection received for one parameter in a run of several threads -/
+structure ConnLog (S : Type) where
+  known : Option S                  -- `some init`: activated before the run started; `none`: it knew nothing
+  activated : Bool                  -- the connection is activated for this parameter at the end (before or during the run)
+  fromStart : Bool                  -- activated before the run and no activation request for it during the run
+  log : List (Delivered S)
+  deriving Repr
+
+structure ConcObsA (S : Type) where
+  conns : List (ConnLog S)
+  final : S
+  deriving Repr
+
+/-- the statement at quiescence when connections may be activated DURING the run:
+    * an activated connection has a state for the parameter and it is the cached one;
+    * every message — snapshot or update — is delivered while the cache holds the state it carries;
+    * the connections that were activated all along received the same sequence. -/
+def ConcOkA (o : ConcObsA S) : Prop :=
+  (∀ c ∈ o.conns, c.activated = true → replayO c.known (c.log.map (·.msg)) = some o.final) ∧
+  (∀ c ∈ o.conns, ∀ d ∈ c.log, d.msg = d.seen) ∧
+  (∀ c ∈ o.conns, ∀ c' ∈ o.conns, c.fromStart = true → c'.fromStart = true → c.log.map (·.msg) = c'.log.map (·.msg))
+
+instance [DecidableEq S] (o : ConcObsA S) : Decidable (ConcOkA o) := by
+  unfold ConcOkA; infer_instance
+
+def concClauseA [DecidableEq S] (o : ConcObsA S) : String :=
+  if ¬ (∀ c ∈ o.conns, ∀ d ∈ c.log, d.msg = d.seen) then "stale-delivery"
+  else if ¬ (∀ c ∈ o.conns, c.activated = true → c.log = [] → c.known.isSome) then "no-state-after-activation"
+  else if ¬ (∀ c ∈ o.conns, c.activated = true → replayO c.known (c.log.map (·.msg)) = some o.final) then
+    "replay-differs-from-cache"
+  else "connections-differ"
+
+def judgeConcA [DecidableEq S] (o : ConcObsA S) : Option String :=
+  if ConcOkA o then none else some (concClauseA o)
+
 end Frappy.Spec.C05
